@@ -270,6 +270,8 @@ class Body:
                 return ("cast", rv["ck"], self.F.ts(rv["to"]), self.expr(rv["o"], depth + 1, rich))
             if rv["k"] == "discr":
                 return ("discr", self.expr({"p": rv["p"]}, depth + 1, rich))
+            if rich and rv["k"] == "repeat":
+                return ("repeat", rv.get("n"))
         if k == "multi":
             return ("multi", r[1])
         if rich and k == "other" and r[1] and r[1].get("k") == "=":
